@@ -1205,6 +1205,15 @@ func (ex *Exec) specForm(st *State, name string, call *ast.CallExpr, sc *SpecCtx
 	case "asPtr", "asType":
 		v := ex.eval(st, call.Args[0], sc)
 		t := ex.resolveType(call.Args[1], sc)
+		if t != nil && v.Sh != nil && v.Sh.IsLeaf() && v.Sh.Leaf == "Int" && name == "asPtr" {
+			if _, isPtr := t.Underlying().(*types.Pointer); isPtr {
+				if _, isIface := v.T.Underlying().(*types.Interface); isIface {
+					// a non-empty interface value is its object reference; the dynamic type is not tracked
+					ex.assumption("asPtr on a " + types.TypeString(v.T, nil) + " value: its dynamic type is assumed to be " + types.TypeString(t, nil))
+					return one(ex.retype(v, t))
+				}
+			}
+		}
 		if t == nil || v.Sh == nil || v.Sh.Kind != "any" {
 			ex.specErr("asPtr(v, T): v must be an `any` value and T a type")
 			return one(ex.freshVal(t, "asptr"))
